@@ -2,9 +2,9 @@
   Read-only evaluation (C09): an expression (or statement) that contains no assignment, no
   `++`/`--`, no `for … in` and no call other than a method call `recv.name(args)` /
   `recv["name"](args)` whose name is not `push`, `pop` or `popfirst` never writes to a cell,
-  array or object that existed before — with ONE exception that the Go code really has: the
-  member/index step turns an *unset* base (`ValueUnknown`) into a fresh empty array or object
-  (src/evaluator.go:582-590).  Everything else it does to the heap is allocation.
+  array or object that existed before: everything it does to the heap is allocation.  (Since
+  the repair of the member step — an unset base is no longer turned into a container by a read,
+  only by `createSpeculative` when the member is assigned to — this holds without exception.)
 
   Architecture: as Lemmas/Invariant.lean — a relation between start and end state (`Rel`), a
   predicate `Pres` on computations closed under the monad operations, primitives, and one mutual
@@ -91,21 +91,13 @@ def Program.FnsRO (prog : Program) : Prop :=
 
 /-! ## the heap relation -/
 
-/-- `v` is a container allocated after `h`, empty in `h'` -/
-def FreshEmpty (h h' : Heap) (v : Val) : Prop :=
-  (∃ a, v = .arr a ∧ h.arrs.size ≤ a ∧ a < h'.arrs.size ∧ h'.arr a = #[]) ∨
-  (∃ o, v = .obj o ∧ h.objs.size ≤ o ∧ o < h'.objs.size ∧ h'.obj o = [])
-
-/-- `h'` is `h` plus allocations: every cell that holds a value keeps it, every array keeps its
-    cells, every object its members; a cell that was *unset* is still unset or holds a fresh
-    empty array / object. -/
+/-- `h'` is `h` plus allocations: every cell keeps its value (an unset cell stays unset),
+    every array keeps its cells, every object its members. -/
 structure HeapPreserved (h h' : Heap) : Prop where
   cells : h.cells.size ≤ h'.cells.size
   arrs : h.arrs.size ≤ h'.arrs.size
   objs : h.objs.size ≤ h'.objs.size
-  get : ∀ c, h.get c ≠ .unknown → h'.get c = h.get c
-  unset : ∀ c, c < h.cells.size → h.get c = .unknown →
-    h'.get c = .unknown ∨ FreshEmpty h h' (h'.get c)
+  get : ∀ c, c < h.cells.size → h'.get c = h.get c
   arr : ∀ a, a < h.arrs.size → h'.arr a = h.arr a
   obj : ∀ o, o < h.objs.size → h'.obj o = h.obj o
 
@@ -121,48 +113,27 @@ theorem Heap.lt_of_get_ne_unknown (h : Heap) (c : CellId) (hne : h.get c ≠ .un
 namespace HeapPreserved
 
 theorem refl (h : Heap) : HeapPreserved h h :=
-  ⟨Nat.le_refl _, Nat.le_refl _, Nat.le_refl _, fun _ _ => rfl, fun _ _ hu => .inl hu,
-   fun _ _ => rfl, fun _ _ => rfl⟩
+  ⟨Nat.le_refl _, Nat.le_refl _, Nat.le_refl _, fun _ _ => rfl, fun _ _ => rfl, fun _ _ => rfl⟩
 
 theorem trans {a b c : Heap} (h1 : HeapPreserved a b) (h2 : HeapPreserved b c) :
     HeapPreserved a c := by
   refine ⟨Nat.le_trans h1.cells h2.cells, Nat.le_trans h1.arrs h2.arrs,
-    Nat.le_trans h1.objs h2.objs, ?_, ?_, ?_, ?_⟩
+    Nat.le_trans h1.objs h2.objs, ?_, ?_, ?_⟩
   · intro x hx
-    have e1 := h1.get x hx
-    rw [h2.get x (by rw [e1]; exact hx), e1]
-  · intro x hx hu
-    rcases h1.unset x hx hu with hb | hb
-    · rcases h2.unset x (Nat.lt_of_lt_of_le hx h1.cells) hb with hc | hc
-      · exact .inl hc
-      · right
-        rcases hc with ⟨i, e, l1, l2, l3⟩ | ⟨i, e, l1, l2, l3⟩
-        · exact .inl ⟨i, e, Nat.le_trans h1.arrs l1, l2, l3⟩
-        · exact .inr ⟨i, e, Nat.le_trans h1.objs l1, l2, l3⟩
-    · right
-      rcases hb with ⟨i, e, l1, l2, l3⟩ | ⟨i, e, l1, l2, l3⟩
-      · have e2 := h2.get x (by rw [e]; simp)
-        refine .inl ⟨i, by rw [e2, e], l1, Nat.lt_of_lt_of_le l2 h2.arrs, ?_⟩
-        rw [h2.arr i l2, l3]
-      · have e2 := h2.get x (by rw [e]; simp)
-        refine .inr ⟨i, by rw [e2, e], l1, Nat.lt_of_lt_of_le l2 h2.objs, ?_⟩
-        rw [h2.obj i l2, l3]
+    rw [h2.get x (Nat.lt_of_lt_of_le hx h1.cells), h1.get x hx]
   · intro x hx
     rw [h2.arr x (Nat.lt_of_lt_of_le hx h1.arrs), h1.arr x hx]
   · intro x hx
     rw [h2.obj x (Nat.lt_of_lt_of_le hx h1.objs), h1.obj x hx]
 
-/-- a cell that existed keeps its kind unless it was unset -/
-theorem get_old {h h' : Heap} (p : HeapPreserved h h') (c : CellId) (hc : c < h.cells.size)
-    (hne : h.get c ≠ .unknown) : h'.get c = h.get c := p.get c hne
+/-- a cell that holds a value is allocated, hence keeps it -/
+theorem get_of_ne {h h' : Heap} (p : HeapPreserved h h') (c : CellId)
+    (hne : h.get c ≠ .unknown) : h'.get c = h.get c :=
+  p.get c (Heap.lt_of_get_ne_unknown h c hne)
 
-theorem alloc (h : Heap) (v : Val) : HeapPreserved h (h.alloc v).2 := by
-  refine ⟨by simp [Heap.alloc], Nat.le_refl _, Nat.le_refl _, ?_, ?_, fun _ _ => rfl, fun _ _ => rfl⟩
-  · intro c hne
-    exact Heap.get_push_old h v c (Heap.lt_of_get_ne_unknown h c hne)
-  · intro c hc hu
-    left
-    rw [show (h.alloc v).2.get c = h.get c from Heap.get_push_old h v c hc, hu]
+theorem alloc (h : Heap) (v : Val) : HeapPreserved h (h.alloc v).2 :=
+  ⟨by simp [Heap.alloc], Nat.le_refl _, Nat.le_refl _,
+   fun c hc => Heap.get_push_old h v c hc, fun _ _ => rfl, fun _ _ => rfl⟩
 
 theorem arr_push_old (h : Heap) (x : Array CellId) (a : ArrId) (ha : a < h.arrs.size) :
     ({ h with arrs := h.arrs.push x } : Heap).arr a = h.arr a := by
@@ -174,28 +145,19 @@ theorem obj_push_old (h : Heap) (x : List (Bytes × CellId)) (o : ObjId) (ho : o
   have : o ≠ h.objs.size := Nat.ne_of_lt ho
   simp [Heap.obj, Array.getD_eq_getD_getElem?, Array.getElem?_push, this]
 
-theorem allocArr (h : Heap) (x : Array CellId) : HeapPreserved h (h.allocArr x).2 := by
-  refine ⟨Nat.le_refl _, by simp [Heap.allocArr], Nat.le_refl _, fun _ _ => rfl,
-    fun _ _ hu => .inl hu, ?_, fun _ _ => rfl⟩
-  intro a ha
-  exact arr_push_old h x a ha
+theorem allocArr (h : Heap) (x : Array CellId) : HeapPreserved h (h.allocArr x).2 :=
+  ⟨Nat.le_refl _, by simp [Heap.allocArr], Nat.le_refl _, fun _ _ => rfl,
+   fun a ha => arr_push_old h x a ha, fun _ _ => rfl⟩
 
-theorem allocObj (h : Heap) (x : List (Bytes × CellId)) : HeapPreserved h (h.allocObj x).2 := by
-  refine ⟨Nat.le_refl _, Nat.le_refl _, by simp [Heap.allocObj], fun _ _ => rfl,
-    fun _ _ hu => .inl hu, fun _ _ => rfl, ?_⟩
-  intro o ho
-  exact obj_push_old h x o ho
+theorem allocObj (h : Heap) (x : List (Bytes × CellId)) : HeapPreserved h (h.allocObj x).2 :=
+  ⟨Nat.le_refl _, Nat.le_refl _, by simp [Heap.allocObj], fun _ _ => rfl, fun _ _ => rfl,
+   fun o ho => obj_push_old h x o ho⟩
 
-theorem allocMany (h : Heap) (vs : List Val) : HeapPreserved h (h.allocMany vs) := by
-  refine ⟨by simp [Heap.allocMany], Nat.le_refl _, Nat.le_refl _, ?_, ?_, fun _ _ => rfl, fun _ _ => rfl⟩
-  · intro c hne
-    exact Heap.get_allocMany_old h vs c (Heap.lt_of_get_ne_unknown h c hne)
-  · intro c hc hu
-    left
-    rw [Heap.get_allocMany_old h vs c hc, hu]
+theorem allocMany (h : Heap) (vs : List Val) : HeapPreserved h (h.allocMany vs) :=
+  ⟨by simp [Heap.allocMany], Nat.le_refl _, Nat.le_refl _,
+   fun c hc => Heap.get_allocMany_old h vs c hc, fun _ _ => rfl, fun _ _ => rfl⟩
 
 end HeapPreserved
-
 
 /-! ### single-cell writes -/
 
@@ -214,58 +176,11 @@ theorem Heap.size_set (h : Heap) (d : CellId) (v : Val) : (h.set d v).cells.size
 /-- writing to the cell that was allocated last -/
 theorem HeapPreserved.alloc_set (h : Heap) (x w : Val) :
     HeapPreserved h ((h.alloc x).2.set h.cells.size w) := by
-  have key : ∀ c, c < h.cells.size → ((h.alloc x).2.set h.cells.size w).get c = h.get c := by
-    intro c hc
+  refine ⟨?_, Nat.le_refl _, Nat.le_refl _, ?_, fun _ _ => rfl, fun _ _ => rfl⟩
+  · rw [Heap.size_set]; simp [Heap.alloc]
+  · intro c hc
     rw [Heap.get_set_ne' _ _ _ _ (Nat.ne_of_lt hc)]
     exact Heap.get_push_old h x c hc
-  refine ⟨?_, Nat.le_refl _, Nat.le_refl _, ?_, ?_, fun _ _ => rfl, fun _ _ => rfl⟩
-  · rw [Heap.size_set]; simp [Heap.alloc]
-  · intro c hne
-    exact key c (Heap.lt_of_get_ne_unknown h c hne)
-  · intro c hc hu
-    left; rw [key c hc, hu]
-
-/-- an unset cell becomes a fresh empty array -/
-theorem HeapPreserved.fill_arr (h : Heap) (left : CellId) (hu : h.get left = .unknown) :
-    HeapPreserved h ((h.allocArr #[]).2.set left (.arr h.arrs.size)) := by
-  refine ⟨?_, ?_, Nat.le_refl _, ?_, ?_, ?_, fun _ _ => rfl⟩
-  · rw [Heap.size_set]; exact Nat.le_refl _
-  · simp [Heap.set, Heap.allocArr]
-  · intro c hne
-    have : c ≠ left := fun e => hne (e ▸ hu)
-    rw [Heap.get_set_ne' _ _ _ _ this]; rfl
-  · intro c hc hcu
-    by_cases e : c = left
-    · subst e
-      right; left
-      refine ⟨h.arrs.size, ?_, Nat.le_refl _, by simp [Heap.set, Heap.allocArr], ?_⟩
-      · exact Heap.get_set_same' _ _ _ hc
-      · simp [Heap.set, Heap.allocArr, Heap.arr, Array.getD_eq_getD_getElem?]
-    · left
-      rw [Heap.get_set_ne' _ _ _ _ e]; exact hcu
-  · intro a ha
-    exact HeapPreserved.arr_push_old h #[] a ha
-
-/-- an unset cell becomes a fresh empty object -/
-theorem HeapPreserved.fill_obj (h : Heap) (left : CellId) (hu : h.get left = .unknown) :
-    HeapPreserved h ((h.allocObj []).2.set left (.obj h.objs.size)) := by
-  refine ⟨?_, Nat.le_refl _, ?_, ?_, ?_, fun _ _ => rfl, ?_⟩
-  · rw [Heap.size_set]; exact Nat.le_refl _
-  · simp [Heap.set, Heap.allocObj]
-  · intro c hne
-    have : c ≠ left := fun e => hne (e ▸ hu)
-    rw [Heap.get_set_ne' _ _ _ _ this]; rfl
-  · intro c hc hcu
-    by_cases e : c = left
-    · subst e
-      right; right
-      refine ⟨h.objs.size, ?_, Nat.le_refl _, by simp [Heap.set, Heap.allocObj], ?_⟩
-      · exact Heap.get_set_same' _ _ _ hc
-      · simp [Heap.set, Heap.allocObj, Heap.obj, Array.getD_eq_getD_getElem?]
-    · left
-      rw [Heap.get_set_ne' _ _ _ _ e]; exact hcu
-  · intro o ho
-    exact HeapPreserved.obj_push_old h [] o ho
 
 /-! ## the relation on states -/
 
@@ -586,46 +501,11 @@ theorem readThen {α : Type} (c : CellId) {f : Val → EM α}
 theorem kind_unknown {v : Val} (h : (v.kind == Kind.unknown) = true) : v = .unknown := by
   cases v <;> simp [Val.kind] at h ⊢
 
-/-- **the member / index step**: the one place where a read writes — an unset base becomes a
-    fresh empty array or object; apart from that, allocation only.  In particular a missing
-    member is NOT created (the result is a fresh cell that only remembers parent and key). -/
+/-- **the member / index step** only allocates: a missing member — and every member of an unset
+    base — is NOT created; the result is a fresh cell that only remembers parent and key -/
 theorem memberStep (pos : Nat) (left right : CellId) : Pres k fr (Jqawk.memberStep pos left right) := by
   unfold Jqawk.memberStep
-  refine bind (readCell _) (fun rv => ?_)
-  refine readThen left (fun s => ?_)
-  have hrest : ∀ (u : Unit), Pres k fr ((fun (_ : Unit) => (do
-      let lv ← Jqawk.readCell left
-      let h ← Jqawk.getHeap
-      match getMember h lv rv with
-      | .error m => Jqawk.throwRt pos m
-      | .ok .missing =>
-        let key : Key := match rv with
-          | .num x => .num x
-          | _ => .str rv.str!
-        Jqawk.newCell (.nil (some ⟨left, key⟩))
-      | .ok (.method f) => Jqawk.newCell (.native f (some left) (some ⟨left, .str rv.str!⟩))
-      | .ok (.char none x) => Jqawk.newCell (.nil (some ⟨left, .num x⟩))
-      | .ok (.char (some ch) x) => Jqawk.newCell (.str ch (some ⟨left, .num x⟩))
-      | .ok (.cell c) =>
-        match h.get c with
-        | .native f _ _ => Jqawk.newCell (.native f (some left) (some ⟨left, .str rv.str!⟩))
-        | _ => return c : EM CellId)) u) := by
-    intro u
-    pres_auto
-  split
-  · rename_i hk
-    have hu : s.heap.get left = .unknown := kind_unknown hk
-    have harr : QR k fr s ((Jqawk.allocArrM #[] >>= fun a => Jqawk.writeCell left (.arr a)) s) :=
-      fun i => ⟨Rel.heapOnly s _ (HeapPreserved.fill_arr s.heap left hu),
-        i.same_objs rfl (by rw [Heap.size_set]; exact Nat.le_refl _)⟩
-    have hobj : QR k fr s ((Jqawk.allocObjM [] >>= fun o => Jqawk.writeCell left (.obj o)) s) :=
-      fun i => ⟨Rel.heapOnly s _ (HeapPreserved.fill_obj s.heap left hu),
-        (i.push_obj [] (by simp [objLookup])).same_objs rfl (by rw [Heap.size_set]; exact Nat.le_refl _)⟩
-    cases rv <;> dsimp only <;> rw [EM.bind_assoc'] <;>
-      first
-        | exact QR.bind harr hrest
-        | exact QR.bind hobj hrest
-  · exact hrest () s
+  pres_auto
 
 theorem pluck (args : List Val) (this : Option Val) :
     Pres k fr (Jqawk.callNative .objPluck args this) := by
@@ -766,7 +646,7 @@ def CalleeOK (h : Heap) (c : CellId) : Prop :=
 
 
 
-/-- the tail of `memberStep` after the unset base has been filled -/
+/-- `memberStep` on a base that is set -/
 def memberRead (pos : Nat) (left : CellId) (rv : Val) : EM CellId := do
   let lv ← readCell left
   let h ← getHeap
@@ -789,19 +669,15 @@ theorem memberStep_str (pos : Nat) (left right : CellId) (s : St) (key : Bytes) 
     (hr : s.heap.get right = .str key sp) :
     memberStep pos left right s =
       if s.heap.get left = .unknown then
-        memberRead pos left (.str key sp)
-          { s with heap := (s.heap.allocObj []).2.set left (.obj s.heap.objs.size) }
+        Jqawk.newCell (.nil (some ⟨left, .str key⟩)) s
       else memberRead pos left (.str key sp) s := by
   unfold memberStep memberRead
   by_cases hu : s.heap.get left = .unknown
-  · simp only [bind, EM.bind, readCell, hr, hu, Val.kind, allocObjM, writeCell, getHeap, ↓reduceIte,
-      beq_self_eq_true, Heap.allocObj]
-    rfl
+  · simp only [bind, EM.bind, readCell, hr, hu, Val.kind, ↓reduceIte, beq_self_eq_true, Val.str!]
   · have hk : ((s.heap.get left).kind == Kind.unknown) = false := by
       cases hv : s.heap.get left <;> simp_all [Val.kind]
     simp only [bind, EM.bind, readCell, hr, hu, hk, getHeap, ↓reduceIte, Bool.false_eq_true, pure]
     rfl
-
 
 theorem proto_nonmutating (key : Bytes) (f : Native) (hm : mutatingName key = false)
     (h : arrayProto key = some f ∨ objProto key = some f ∨ strProto key = some f ∨ numProto key = some f) :
@@ -928,16 +804,14 @@ theorem CalleeOK.stable {h h' : Heap} {c : CellId} (hc : CalleeOK h c) (p : Heap
     CalleeOK h' c := by
   refine ⟨Nat.lt_of_lt_of_le hc.1 p.cells, ?_⟩
   intro f b sp hget
-  by_cases hu : h.get c = .unknown
-  · rcases p.unset c hc.1 hu with e | ⟨a, e, _⟩ | ⟨o, e, _⟩ <;> rw [e] at hget <;> cases hget
-  · rw [p.get c hu] at hget
-    rcases hc.2 f b sp hget with h1 | h1
-    · exact .inl h1
-    · right
-      intro bc hbc
-      obtain ⟨h2, h3⟩ := h1 bc hbc
-      rw [p.get bc h2]
-      exact ⟨h2, h3⟩
+  rw [p.get c hc.1] at hget
+  rcases hc.2 f b sp hget with h1 | h1
+  · exact .inl h1
+  · right
+    intro bc hbc
+    obtain ⟨h2, h3⟩ := h1 bc hbc
+    rw [p.get_of_ne bc h2]
+    exact ⟨h2, h3⟩
 
 /-- a literal member name evaluates to a fresh string cell (or fails) -/
 theorem evalExpr_lit_key (prog : Program) (n : Nat) (t : Token) (s : St) (hs : safeKey t = true) :
@@ -1082,11 +956,12 @@ theorem memberStep_callee {k fr : Bool} (hk : k = true) (pos : Nat) (left right 
     refine ⟨r, i', ?_⟩
     rw [memberStep_str pos left right s key sp hr] at hres
     split at hres
-    · rename_i hu
-      refine memberRead_callee pos left key sp _ c s' ?_ hm hres
-      exact (Inv.same_objs (h' := (s.heap.allocObj []).2.set left (.obj s.heap.objs.size))
-        (i.push_obj [] (by simp [objLookup])) rfl
-        (by rw [Heap.size_set]; exact Nat.le_refl _)) hk
+    · obtain ⟨rfl, e⟩ := newCell_ok _ s c s' hres
+      rw [e]
+      refine ⟨by rw [Heap.size_alloc]; exact Nat.lt_succ_self _, ?_⟩
+      intro f b sp' hget
+      rw [Heap.get_alloc_new] at hget
+      cases hget
     · exact memberRead_callee pos left key sp s c s' (i hk) hm hres
 
 structure AllRO (prog : Program) (k : Bool) (n : Nat) : Prop where
